@@ -272,9 +272,9 @@ def run(tier, seed, only_cases=None):
     workers = 4 if tier == "quick" else 16
 
     # ---- (1) model checking -------------------------------------------------------------------
-    cfgs = [("MCLogSafety_q.cfg", 300)] if tier == "quick" else \
-        [("MCLogSafety_q.cfg", 300), ("MCLogSafety_free.cfg", 900), ("MCLogSafety_maps.cfg", 1800),
-         ("MCLogSafety_n3.cfg", 3000)]
+    cfgs = [("MCLogSafety_q.cfg", 300), ("MCLogSafety_n3obj.cfg", 600)] if tier == "quick" else \
+        [("MCLogSafety_q.cfg", 300), ("MCLogSafety_n3obj.cfg", 600), ("MCLogSafety_free.cfg", 900),
+         ("MCLogSafety_maps.cfg", 1800), ("MCLogSafety_n3.cfg", 3000)]
     if tier == "quick":
         cfgs.append(("MCLogSafety_freeq.cfg", 300))
     states = transitions = 0
@@ -283,7 +283,7 @@ def run(tier, seed, only_cases=None):
     mc_runs = []
     for cfg, to in cfgs:
         env = {}
-        r = vc.tlc(PID, "MCLogSafety", cfg, workers=workers, timeout_s=to)
+        r = vc.tlc(PID, "MCLogSafety", cfg, workers=workers, timeout_s=to, extra_env={"EMITRES": str(seed)})
         if r.error:
             raise vc.ToolError("%s: %s" % (cfg, r.error))
         mc_runs.append({"cfg": cfg, "generated": r.generated, "distinct": r.distinct, "depth": r.depth,
@@ -306,7 +306,7 @@ def run(tier, seed, only_cases=None):
     vc.log("[tlc] %d states, %d cases, old-mechanism self-test violated %s" % (states, len(cases), r_old.violated))
 
     # ---- (2) S->I replay ------------------------------------------------------------------------
-    budget = 2500 if tier == "quick" else 40000
+    budget = 6000 if tier == "quick" else 40000
     interesting = [c for c in cases if c["mech"] != c["ref"] * 2]
     rest = [c for c in cases if c["mech"] == c["ref"] * 2]
     cyc = [c for c in rest if has_cycle(c["tab"])]
@@ -315,13 +315,13 @@ def run(tier, seed, only_cases=None):
     chosen += rng.sample(plain, min(len(plain), max(0, budget - len(chosen))))
     docs = []
     meta = {}
-    nlayouts = 3
+    nlayouts = 2 if tier == "quick" else 3
     for ci, c in enumerate(chosen):
         for layout in range(nlayouts):
             cid = "%d.%d" % (ci, layout)
             docs.append(json.dumps({"id": cid, "ir": case_to_ir(c, vc.Rng(seed * 1000003 + ci * 7 + layout), layout)}))
             meta[cid] = (c, layout)
-    text = vc.harness("vh", ["codegen-safe"], stdin="\n".join(docs) + "\n")
+    text = vc.harness_parallel("vh", ["codegen-safe"], docs)
     replayed = 0
     nontrivial = set()
     samples = []
@@ -354,15 +354,15 @@ def run(tier, seed, only_cases=None):
                             "mech": c["mech"], "observed": flags})
 
     # ---- (3) I->S trace validation ------------------------------------------------------------
-    nruns = 150 if tier == "quick" else 1500
+    nruns = 600 if tier == "quick" else 6000
     if os.environ.get("VERIF_DEBUG_SKIP_TRACE"):
         nruns = 0
     tdocs, tmeta = [], {}
     for k in range(nruns):
-        c = random_case(rng, 12, 30)
+        c = random_case(rng, 12, 30) if k % 3 == 0 else random_case(rng, 3 + rng.below(4), 8)
         tdocs.append(json.dumps({"id": "t%d" % k, "ir": case_to_ir(c, vc.Rng(seed * 7919 + k), 0)}))
         tmeta["t%d" % k] = c
-    text = vc.harness("vh", ["codegen-safe"], stdin="\n".join(tdocs) + "\n")
+    text = vc.harness_parallel("vh", ["codegen-safe"], tdocs)
     trace_path = os.path.join(od, "trace.ndjson")
     nlines = 0
     lines_meta = []
